@@ -161,21 +161,21 @@ Print Assumptions C07_listener.
 (* call 5 is dispatched; call 9 passes the first state check and is parked before newExchange;
    Close runs (state StartClose, held by call 5); call 9 continues: registered, re-check fails,
    declined reply (9, 4); call 7 arrives: declined at the first check (7, 4); call 5 finishes:
-   the connection reaches Closed (4), stopCh closed once, two callbacks.
+   the connection reaches Closed (4), stopCh closed once.
    Output tail: 2 replies (9,4) (7,4); outcomes dispatched 5 / refused-at-re-check 9 / close ok /
    refused 7 / removed 5. *)
 Example C07_example_conn :
   let out := run_connclose [0; 11;  0;3;5;0;  1;0;0;0;  0;3;9;0;  1;1;4;0;  0;1;0;0;  1;2;0;0;  1;1;0;0;
                             0;3;7;0;  1;3;0;0;  0;5;5;0;  1;4;0;0] in
-  skipn 80 out = [0; 4; 0; 0; 0; 1; 2; 0;   2; 9; 4; 7; 4;   5; 10; 5; 12; 9; 50; 0; 11; 7; 40; 5].
+  skipn 70 out = [0; 4; 0; 0; 0; 1; 0;   2; 9; 4; 7; 4;   5; 10; 5; 12; 9; 50; 0; 11; 7; 40; 5].
 Proof. vm_compute. reflexivity. Qed.
 
 (* listen; one connection is added; Close (state StartClose=3), its loop closes connection 0 and
    the callback sees StartClose; the connection reaches Closed; its callback removes it and moves
    the channel to Closed (5) with exactly one signal; all threads done. *)
 Example C07_example_chan :
-  let out := run_chanclose [12; 0;0;0; 1;0;0; 6;0;0; 3;0;0; 6;1;2; 7;1;0; 4;0;0; 6;2;0; 6;1;0; 2;0;4; 4;0;0; 6;3;0] in
-  skipn 55 out = [0; 5; 0; 1; 0;   4; 4; 1; 3; 3].
+  run_chanclose [16; 0;0;0; 1;0;0; 6;0;0; 8;0;0; 3;0;0; 6;1;2; 8;0;0; 7;1;0; 4;0;0; 6;2;0; 6;1;0; 2;0;4; 4;0;0; 8;0;0; 6;3;0; 8;0;0]
+  = [0;  2; 1; 0;  1;  3; 1; 0;  1; 0; 0;  3; 1; 0;  0;  5; 0; 1;   4; 4; 1; 3; 3].
 Proof. vm_compute. reflexivity. Qed.
 
 (* the hypotheses of the reaches-closed theorems are met by reachable states *)
